@@ -1,8 +1,6 @@
 import Ebu.Spec.Bus
-import Ebu.Proofs.BusRefine
 import Ebu.Proofs.BusFrame
 import Ebu.Proofs.BusPersist
-import Ebu.Proofs.BusObs
 /-!
 C13 — Persistence failures are contained, reported once and never corrupt the log
 
